@@ -79,10 +79,19 @@ def r2_one_state_per_subject(ctx):
     cl = [s for s in ast.walk(f.node) if isinstance(s, ast.Assign) and isinstance(s.targets[0], ast.Subscript) and isinstance(s.targets[0].value, ast.Name)
           and ((isinstance(s.value, ast.Call) and isinstance(s.value.func, ast.Attribute) and s.value.func.attr == "clone") or U(s.value) in ("state", "model.state"))]
     ok = len(cl) == 1 and isinstance(cl[0].value, ast.Call) and U(cl[0].value.func).endswith(".clone")
+    job_ = ctx.ix.func("leaspy.algo.personalize.scipy_minimize", "ScipyMinimizeAlgorithm._get_individual_parameters_patient_master", "C07.R2")
+    moved = not cl and any(isinstance(c, ast.Call) and isinstance(c.func, ast.Attribute) and c.func.attr == "clone" for c in ast.walk(job_.node))
+    if moved:
+        ctx.unknown("C07.R2", f, f.node, "the per-subject states are no longer prepared in _compute_individual_parameters (a clone now happens inside the job): unrecognised organisation", construct="one clone per subject")
+        return
     ctx.check(ok, "C07.R2", f, cl[0] if cl else f.node, "one clone of the model state per subject", "subjects share a working state: one subject's optimisation reads another's data / latent values",
               construct="one clone per subject")
     cont = U(cl[0].targets[0].value) if cl else "states"
     dcont = U(ds[0].targets[0]) if ds else "datasets"
+    loaded = [c for c in ast.walk(f.node) if isinstance(c, ast.Call) and isinstance(c.func, ast.Attribute) and c.func.attr == "put_data_variables"]
+    ctx.check(bool(loaded), "C07.R2", f, loaded[0] if loaded else f.node, "each subject's own observations are loaded into its state",
+              "the per-subject states never receive the subject's data (`put_data_variables` is gone): every subject is optimised against whatever the cloned state held",
+              construct="data loaded per subject")
     for c in ast.walk(f.node):
         if isinstance(c, ast.Call) and U(c.func) in ("model.put_data_variables", "model.put_individual_parameters"):
             ok = len(c.args) == 2 and isinstance(c.args[0], ast.Subscript) and isinstance(c.args[1], ast.Subscript) and U(c.args[0].value) == cont and U(c.args[1].value) == dcont \
@@ -92,12 +101,12 @@ def r2_one_state_per_subject(ctx):
     ctx.check(bs is not None, "C07.R2", f, f.node, "scalings come from the population-level state (shared, read-only)", "scalings are not derived from the shared population-level state", construct="shared scalings")
 
 
-def r3_job_effects(ctx):
-    ctx.rule("C07.R3", "the per-subject job draws nothing and writes only its own state", 2)
+def r3_job_effects(ctx, rid="C07.R3", title=None):
+    ctx.rule(rid, title or "the per-subject job draws nothing and writes only its own state", 2)
     ix = ctx.ix
     cg = callgraph(ctx)
     sw = state_writes(ctx)
-    job = ix.func("leaspy.algo.personalize.scipy_minimize", "ScipyMinimizeAlgorithm._get_individual_parameters_patient_master", "C07.R3")
+    job = ix.func("leaspy.algo.personalize.scipy_minimize", "ScipyMinimizeAlgorithm._get_individual_parameters_patient_master", rid)
     seen = cg.reach([job])
     ps = prior_sampling_sites(ctx, cg)
     n = 0
@@ -105,22 +114,22 @@ def r3_job_effects(ctx):
         g = ix.funcs[k]
         for fam, node, txt in rng_draws(ix, g) + [("torch", c, "prior sampling") for c in ps.get(k, [])]:
             n += 1
-            ctx.violation("C07.R3", g, node, f"the per-subject job draws `{txt}` ({' -> '.join(cg.path_to(seen, k)[-4:])}): results depend on how jobs are scheduled over workers")
+            ctx.violation(rid, g, node, f"the per-subject job draws `{txt}` ({' -> '.join(cg.path_to(seen, k)[-4:])}): results depend on how jobs are scheduled over workers")
         for node, desc in sw.live_writes(g):
-            ctx.violation("C07.R3", g, node, f"the per-subject job {desc}: subjects interfere through the shared model state")
+            ctx.violation(rid, g, node, f"the per-subject job {desc}: subjects interfere through the shared model state")
         if g.cls == job.cls:
             for st in statements(g.node):
                 if isinstance(st, (ast.Assign, ast.AugAssign)):
                     for t in (st.targets if isinstance(st, ast.Assign) else [st.target]):
                         if isinstance(t, (ast.Attribute, ast.Subscript)) and U(t).startswith("self."):
-                            ctx.violation("C07.R3", g, st, f"the per-subject job stores into the shared algorithm object (`{U(t)[:40]}`): jobs interfere when run in one process")
-    ctx.ok("C07.R3", job, job.node, f"{len(seen)} functions reachable from the job: no draw, no write to a live / shared state", construct="def _get_individual_parameters_patient_master")
+                            ctx.violation(rid, g, st, f"the per-subject job stores into the shared algorithm object (`{U(t)[:40]}`): jobs interfere when run in one process")
+    ctx.ok(rid, job, job.node, f"{len(seen)} functions reachable from the job: no draw, no write to a live / shared state", construct="def _get_individual_parameters_patient_master")
     params = sw.writes_param.get(("leaspy.algo.personalize.scipy_minimize", "ScipyMinimizeAlgorithm._get_individual_parameters_patient"), set())
-    ctx.check(params <= {"state"}, "C07.R3", job, job.node, "the job writes only through its `state` argument", f"the job writes through parameters {sorted(params)}", construct="written parameters")
+    ctx.check(params <= {"state"}, rid, job, job.node, "the job writes only through its `state` argument", f"the job writes through parameters {sorted(params)}", construct="written parameters")
     un = cg.unresolved_in(seen)
     ctx.extra["job_unresolved_call_sites"] = [f"{s.func.qual}:{s.node.lineno} {U(s.node.func)[:40]}" for s in un]
     if len(un) > 2:
-        ctx.unknown("C07.R3", job, job.node, f"{len(un)} unresolved call sites in the job region (bound 2: self.logger, the scipy callback)", construct="unresolved calls in the job")
+        ctx.unknown(rid, job, job.node, f"{len(un)} unresolved call sites in the job region (bound 2: self.logger, the scipy callback)", construct="unresolved calls in the job")
 
 
 def r4_individual_sampler(ctx):
